@@ -1,5 +1,22 @@
 /-
   C09 — Count → frequency → weight → log-odds conversions obey their definitions.
+
+  Models: LMV.Model.Pwm over the carriers of LMV.Model.PwmScalar (abstract / `Rat` / `Float32`).
+
+  (1) counting (Nat)      `fromSequences_ok`, `fromSequences_err`, `fromSequences_ok_iff`, `countNew_n`
+  (2) exact (Rat)         `freq_eq`, `freq_row_sum`, `weight_rat`, `weight_of_counts`, `rescale_rat`
+  (3) structural          `intoScoring_get`, `twoStep_get`, `logBase_cases`, `oneStep_eq_twoStep`,
+                          `negInf_where_bg_zero`, `negInf_iff_bg_zero`
+  (4) validation (Rat)    `bgNew_ok_iff`, `bgNew_err_iff`, `freqNew_ok_iff`, `freqNew_err_iff`,
+                          `toFreq_valid`
+  (5) bounds (Rat)        `min_le_score_le_max`, `scorePosition_rat`
+  (6) backgrounds         `tables_symbols`, `bgFromCounts_ok`, `bgFromCounts_err_iff`,
+                          `bgFromSequence_eq`, `bgFromSequences_eq`, `bgUniform_valid`,
+                          `countSymbols_eq`, `pseudoUniform_get`, `rowTotal_ne_zero`
+  (7) chain               `colCount_row_sum`, `freq_of_sequences`
+
+  Guards the real code relies on are explicit hypotheses (row total ≠ 0, symbols < K, K ≥ 2,
+  window inside the non-wildcard columns); each theorem is followed by a non-vacuity example.
 -/
 import LMV.Model.Pwm
 import LMV.Model.Abc
@@ -168,6 +185,50 @@ example :
     colCount [[0, 1], [0, 3], [2, 1]] 0 0 = 2 ∧
     (match fromSequences (K := 5) [[0, 1], [0], [2, 1]] with | .ok _ => false | .error _ => true) = true := by
   decide +kernel
+
+/-- `CountMatrix::new` never rejects; its `sequence_count` is the largest row sum: an upper bound
+    of every row sum, attained by some row when there is one -/
+theorem countNew_n (data : Mat Nat K) :
+    (countNew data).data = data ∧
+    (∀ i, i < data.rows → natSum K (data.get i) ≤ (countNew data).n) ∧
+    (0 < data.rows → ∃ i, i < data.rows ∧ natSum K (data.get i) = (countNew data).n) ∧
+    (data.rows = 0 → (countNew data).n = 0) := by
+  have key : ∀ (l : List Nat) (a : Nat),
+      a ≤ l.foldl max a ∧ (∀ x ∈ l, x ≤ l.foldl max a) ∧ (l.foldl max a = a ∨ l.foldl max a ∈ l) := by
+    intro l
+    induction l with
+    | nil => intro a; simp
+    | cons x xs ih =>
+      intro a
+      have ⟨h1, h2, h3⟩ := ih (max a x)
+      simp only [List.foldl_cons, List.mem_cons]
+      refine ⟨le_trans (Nat.le_max_left a x) h1, ?_, ?_⟩
+      · intro y hy
+        rcases hy with rfl | hy
+        · exact le_trans (Nat.le_max_right a y) h1
+        · exact h2 y hy
+      · rcases h3 with h | h
+        · rw [h]
+          rcases Nat.le_total a x with hle | hle
+          · right; left; exact Nat.max_eq_right hle
+          · left; exact Nat.max_eq_left hle
+        · right; right; exact h
+  unfold countNew
+  by_cases h0 : data.rows = 0
+  · simp [h0]
+  · simp only [h0, if_false]
+    have ⟨_, h2, h3⟩ := key ((List.range data.rows).map fun i => natSum K (data.get i)) 0
+    refine ⟨trivial, ?_, ?_, False.elim⟩
+    · intro i hi
+      exact h2 _ (List.mem_map.mpr ⟨i, List.mem_range.mpr hi, rfl⟩)
+    · intro _
+      rcases h3 with h | h
+      · -- the maximum is 0: every row sums to 0, row 0 attains it
+        refine ⟨0, by omega, ?_⟩
+        have := h2 _ (List.mem_map.mpr ⟨0, List.mem_range.mpr (by omega), rfl⟩)
+        omega
+      · rcases List.mem_map.mp h with ⟨i, hi, e⟩
+        exact ⟨i, List.mem_range.mp hi, e⟩
 
 end counting
 
